@@ -41,6 +41,13 @@ def datatype_schemas():
     out.append(SCHEMA(types=[TYPE("t1", [K("k1", attribute="_level"), MK("m1", "integer", attribute="__"),
                                          K("+", attribute="_rest"), K("k-2", attribute="given")], datatype="wrap")],
                       children=[K("k1", attribute="_top"), MSEC("t1", "*", "_ones"), SEC("t1", "+", "one_")]))
+    # one abstract multisection slot filled by types whose section datatypes differ: each value passes through
+    # the datatype of its own type
+    out.append(SCHEMA(types=[schemas.ABS("ab"), TYPE("ia", [K("k1")], implements="ab", datatype="wrap"),
+                             TYPE("ib", [K("k1")], implements="ab"),
+                             TYPE("ic", [K("k2", "integer")], extends="ia", implements="ab", datatype="null"),
+                             TYPE("box", [MSEC("ab", "*", "items"), SEC("ab", "+", "named")])],
+                      children=[MSEC("ab", "*", "items"), MSEC("box", "*", "boxes")]))
     return out
 
 
@@ -86,8 +93,28 @@ def replay_g(v):
             "spec": v["o"], "observed_after_mutation": got2, "class": {"clause": "defaults-aliased"}}
 
 
+def compare_deep2(ws, sch, rec, item, emit):
+    """Whole texts: the tree, and the tree once more after everything reachable from the first result was mutated."""
+    from .. import scenario
+    d = c01.compare_deep(ws, sch, rec, item, emit)
+    if d is not None or emit["o"]["r"] != "ok":
+        return d
+    got, res = scenario.run_real(ws, sch, rec, item)
+    if res is None:
+        return None
+    mutate(res[0])
+    got2, _ = scenario.run_real(ws, sch, rec, item)
+    why = loadgen.compare_outcome(emit["o"], got2, check_tree=True)
+    if why is None:
+        return None
+    return {"clause": "deep: defaults-aliased:" + why, "observed_after_mutation": got2,
+            "class": {"clause": "defaults-aliased"}}
+
+
 def run(chk):
     quick = chk.tier == "quick"
+    c01.deep(chk, datatype_schemas() + schemas.family(chk.seed + 1, 4 if quick else 20), 30 if quick else 300,
+             tree=True, compare=compare_deep2)
     docs = datatype_schemas() + schemas.family(chk.seed + 1, 4 if quick else 20)
     chk.rule = ("as C01, over 15 datatype-stress schemas (every standard datatype with a reference conversion on a key, a "
                 "defaulted key, a multikey, a defaulted multikey, a '+' key and a '+' multikey with keyed defaults, inside a "
